@@ -21,6 +21,9 @@ type pair struct {
 	amount uint64
 	id     string
 	sm     *swap.SwapStateMachine
+	// slowStart: more than a second of wall-clock time passes between the creation of the swap on both sides and
+	// everything that follows (fee payment, funding, announcement)
+	slowStart bool
 }
 
 type pairOpts struct {
